@@ -63,6 +63,10 @@ func checkC08(c *km.Ctx) {
 		if cl == nil || idx != 0 || km.CalleeFull(cl.Common()) != RS+"IsAdminUserAndU2F" {
 			return false
 		}
+		// the predicate handed the authenticated credential itself (user and level travel in one record)
+		if raw := cl.Common().Args; len(raw) == 2 && s.Is(raw[1], km.RoleAuthInfo) {
+			return true
+		}
 		a := km.CallArgs(cl.Common())
 		return len(a) == 3 && isAuthUser(a[1]) && isAuthLevel(a[2])
 	}}
@@ -301,6 +305,7 @@ func operandOnPaths(c *km.Ctx, s *km.Sem, site ssa.Instruction, operand ssa.Valu
 func checkAdminPredicates(c *km.Ctx, s *km.Sem) {
 	r := c.R
 	u2f := authTypeConsts(c)["AuthTypeU2F"]
+	checkAdminCacheUse(c)
 	// --- IsAdminUserAndU2F
 	if fn := c.MustFunc("R-C08-2", "cmd/keymasterd", "(*RuntimeState).IsAdminUserAndU2F"); fn != nil {
 		for _, rc := range s.RetCases(fn) {
@@ -689,10 +694,23 @@ func conjOfAdminAndU2F(c *km.Ctx, s *km.Sem, fn *ssa.Function, v ssa.Value, u2f 
 		if !ok || and.Op != token.AND {
 			return false
 		}
+		// the level: the level parameter, or the AuthType of the credential record handed in
+		isLevel := func(x ssa.Value) bool {
+			x = km.Unwrap(x)
+			if p := km.ParamAt(fn, 2); p != nil && x == ssa.Value(p) {
+				return true
+			}
+			if base, fld, ok := km.FieldOfLoad(x); ok && fld == "AuthType" {
+				if _, isP := km.Unwrap(base).(*ssa.Parameter); isP && km.NamedTypeOf(base.Type()) == KMD+".authInfo" {
+					return true
+				}
+			}
+			return false
+		}
 		var k ssa.Value
-		if km.Unwrap(and.X) == ssa.Value(km.ParamAt(fn, 2)) {
+		if isLevel(and.X) {
 			k = and.Y
-		} else if km.Unwrap(and.Y) == ssa.Value(km.ParamAt(fn, 2)) {
+		} else if isLevel(and.Y) {
 			k = and.X
 		} else {
 			return false
@@ -710,7 +728,19 @@ func conjOfAdminAndU2F(c *km.Ctx, s *km.Sem, fn *ssa.Function, v ssa.Value, u2f 
 			return false
 		}
 		a := km.CallArgs(cl.Common())
-		return len(a) == 2 && km.Unwrap(a[1]) == ssa.Value(km.ParamAt(fn, 1))
+		if len(a) != 2 {
+			return false
+		}
+		if p := km.ParamAt(fn, 1); p != nil && km.Unwrap(a[1]) == ssa.Value(p) {
+			return true
+		}
+		// the user of the credential record handed in
+		if base, fld, ok := km.FieldOfLoad(km.Unwrap(a[1])); ok && fld == "Username" {
+			if _, isP := km.Unwrap(base).(*ssa.Parameter); isP && km.NamedTypeOf(base.Type()) == KMD+".authInfo" {
+				return true
+			}
+		}
+		return false
 	}
 	phi, ok := km.Unwrap(v).(*ssa.Phi)
 	if !ok {
@@ -846,4 +876,81 @@ func checkRoleMinting(c *km.Ctx, s *km.Sem) {
 	if nRole == 0 {
 		r.AnchorLost("R-C08-4", "store of roleRequestingCertGenParams.Role in parseRoleCertGenParams")
 	}
+}
+
+// checkAdminCacheUse: the cache holds one verdict per name, and that verdict means "is an administrator": only
+// IsAdminUser reads and writes it (another predicate memoised in the same slots - "is an automation identity" -
+// would be answered with the administrator verdict and the reverse); and the clock its five minutes are measured
+// with is the wall clock, read at each use.
+func checkAdminCacheUse(c *km.Ctx) {
+	getName := "(*" + km.ModPath + "/keymasterd/admincache.Cache).Get"
+	putName := "(*" + km.ModPath + "/keymasterd/admincache.Cache).Put"
+	owner := c.P.Func("cmd/keymasterd", "(*RuntimeState).IsAdminUser")
+	if owner == nil {
+		return
+	}
+	fam := map[*ssa.Function]bool{}
+	for _, f := range callsWithNewHelpersFuncs(c, owner, 2) {
+		fam[f] = true
+	}
+	n, bad := 0, ""
+	for _, fn := range c.P.AllFuncs {
+		if fn.Pkg == nil || !pkgIsKMD(fn.Pkg) {
+			continue
+		}
+		for _, ci := range km.CallsIn(fn) {
+			if nm := km.CalleeFull(ci.Common()); nm == getName || nm == putName {
+				n++
+				top := fn
+				for top.Parent() != nil {
+					top = top.Parent()
+				}
+				if !fam[top] {
+					bad = km.FuncName(fn) + " uses the administrator cache at " + posOf(c, ci)
+				}
+			}
+		}
+	}
+	if n == 0 {
+		c.R.AnchorLost("R-C08-2", "uses of the administrator cache in cmd/keymasterd")
+	} else {
+		found := sprintf("%d uses, all in IsAdminUser", n)
+		if bad != "" {
+			found = bad
+		}
+		c.R.Add("R-C08-2", km.FuncName(owner), "the administrator cache answers one question", c.P.Pos(owner.Pos()), "only IsAdminUser reads and writes the per-name verdict cache", found, bad == "")
+	}
+	// the clock
+	nw := c.P.Func("keymasterd/admincache", "New")
+	if nw == nil {
+		c.R.AnchorLost("R-C08-2", "admincache.New")
+		return
+	}
+	wall, desc := false, "no clock found in the constructor"
+	for _, f := range callsWithNewHelpersFuncs(c, nw, 1) {
+		km.Instrs(f, func(in ssa.Instruction) {
+			mi, ok := in.(*ssa.MakeInterface)
+			if !ok || !strings.HasSuffix(mi.Type().String(), "admincache.clock") {
+				return
+			}
+			m := c.P.SSA.LookupMethod(mi.X.Type(), f.Pkg.Pkg, "Now")
+			if m == nil || len(m.Blocks) == 0 {
+				desc = "clock of type " + mi.X.Type().String() + ": Now not found"
+				return
+			}
+			all, nRet := true, 0
+			km.Instrs(m, func(i2 ssa.Instruction) {
+				if ret, isRet := i2.(*ssa.Return); isRet && len(ret.Results) == 1 {
+					nRet++
+					cl, isC := km.Unwrap(ret.Results[0]).(*ssa.Call)
+					if !isC || km.CalleeFull(cl.Common()) != "time.Now" {
+						all = false
+					}
+				}
+			})
+			wall = all && nRet > 0
+			desc = sprintf("clock %s: Now() returns time.Now() on every return=%v", mi.X.Type().String(), wall)
+		})
+	}
+	c.R.Add("R-C08-2", km.FuncName(nw), "cache lifetime measured on the wall clock", c.P.Pos(nw.Pos()), "the clock the production constructor installs reads time.Now() at every use", desc, wall)
 }
